@@ -865,6 +865,9 @@ func (runInfo *runInfoStruct) runDeleteStmt(stmt *ast.DeleteStmt) {
 		if runInfo.err != nil {
 			return
 		}
+		if runInfo.rv.Kind() == reflect.Interface && !runInfo.rv.IsNil() {
+			runInfo.rv = runInfo.rv.Elem()
+		}
 	}
 
 	if item.Kind() == reflect.Interface && !item.IsNil() {
@@ -916,6 +919,9 @@ func (runInfo *runInfoStruct) runCloseStmt(stmt *ast.CloseStmt) {
 	runInfo.invokeExpr()
 	if runInfo.err != nil {
 		return
+	}
+	if runInfo.rv.Kind() == reflect.Interface && !runInfo.rv.IsNil() {
+		runInfo.rv = runInfo.rv.Elem()
 	}
 	if runInfo.rv.Kind() == reflect.Chan {
 		ch := runInfo.rv
